@@ -14,17 +14,20 @@ Without --run: prints one case per line on stdout
 With --run: runs
     code  : /verif/build/typedump     `SELECT CAST(x AS <T>)` and `SELECT x::<T>` through the real parser + Explain
     model : /verif/build/types_driver (extracted TypeModel on the lexer's tokens of <T>)
-    spec  : /verif/build/types_driver (extracted TypeSpec: shown, wf_ty, code_ok, print_ty)
+    spec  : /verif/build/types_driver (extracted TypeSpec: shown, wf_ty, print_ty)
   and checks, per case
     (0) the lexer's tokens of the generated text are print_ty(tree)          (generator / lexer / print_ty agree)
     (1) model = code in both positions unless the model answers OOF          (well-formed trees must not be OOF)
     (2) code CAST form = code :: form                                        ("both positions show the same text")
-    (3) wf_ty && code_ok  =>  code = shown(tree)                            (the theorem's instance)
-    (4) wf_ty && !code_ok: the deviation class (F1..F4) is counted, with the first examples where code != shown
-  Exit status 1 on a failure of (0)-(3) or when the python classifier disagrees with code_ok.
+    (3) wf_ty  =>  code = shown(tree)                                       (the theorem's instance)
+    (4) trees containing a construct of one of the FORMER deviation classes F1..F4 (fixed in /repo) are counted
+        per class together with the number where code != shown (must be 0 now); R = the residual combination
+        excluded from wf_ty (element name that isDataTypeName knows before an unknown plain type name):
+        the python classifier says R  =>  wf_ty must be false (cross-check).
+  Exit status 1 on a failure of (0)-(4).
 
---deviations PCT: percentage of cases allowed to contain a construct that is a known code/spec deviation
-  (default 25); 0 generates only trees with code_ok = true.
+--deviations PCT: percentage of cases allowed to contain a construct of a former deviation class F1..F4 or R
+  (default 25).
 --mutants PCT: percentage of the random cases (after the systematic ones) replaced by a token-level mutant of a
   generated type (token deleted / duplicated / swapped / replaced by a word the parser treats specially);
   mutants carry no tree ("-") and are only used for check (1): malformed and out-of-fragment inputs must give
@@ -163,6 +166,8 @@ class Gen:
         r = self.r
         if r.chance(1, 40):
             return r.choice(ELEM_QUOTED)
+        if self.dev and (not is_ident_tok(ty[1]) or not is_dtn(ty[1])) and r.chance(1, 2):
+            return r.choice(ELEM_TYPELIKE)      # former F4 (keyword-token type) / residual R (unknown plain type)
         if self.dev and r.chance(1, 5):
             return r.choice(ELEM_TYPELIKE)
         if r.chance(1, 12):
@@ -287,7 +292,9 @@ def deviations(t, out):
             deviations(a[1], out)
         elif a[0] == 'n':
             h = a[2][1]
-            if is_dtn(a[1]) and not (is_ident_tok(h) and is_dtn(h)):
+            if is_dtn(a[1]) and not is_dtn(h):
+                out.add("R")
+            elif is_dtn(a[1]) and not is_ident_tok(h):
                 out.add("F4")
             deviations(a[2], out)
         elif a[0] == 's':
@@ -670,11 +677,11 @@ def main(argv):
         open(os.path.join(tmp, "driver.out"), "w").write(dout)
 
     n_tok_bad = n_model_bad = n_pos_bad = n_thm_bad = n_cls_bad = 0
-    n_oof = n_wf = n_ok = n_thm = n_mut = n_mut_oof = 0
+    n_oof = n_wf = n_thm = n_mut = n_mut_oof = n_resid = 0
     mut_same = {}
+    resid_answers = {}
     oof_reasons = {}
     fclass = {}          # class -> [cases, cases where code != shown]
-    fexamples = {}
     reports = []
 
     def report(kind, i, msg):
@@ -698,9 +705,8 @@ def main(argv):
             continue
         f = dict(x.split("=") for x in spec.split(";")[1:])
         shown = spec.split(";")[0]
-        wf, ok, toks = f["wf"] == "1", f["ok"] == "1", f["toks"] == "1"
+        wf, toks = f["wf"] == "1", f["toks"] == "1"
         n_wf += wf
-        n_ok += wf and ok
         if not toks:
             n_tok_bad += 1
             report("TOKENS", i, "lexer tokens differ from print_ty(tree) %s" % tree_str(t))
@@ -719,36 +725,35 @@ def main(argv):
             report("POSITIONS", i, "CAST=%r ::=%r" % (dec(ca), dec(cb)))
         devs = set()
         deviations(t, devs)
-        if wf and (ok != (not devs)):
-            n_cls_bad += 1
-            report("CLASSIFIER", i, "code_ok=%s python deviations=%s" % (ok, sorted(devs)))
-        if wf and ok:
+        if "R" in devs:
+            n_resid += 1
+            if wf:
+                n_cls_bad += 1
+                report("CLASSIFIER", i, "python says residual combination but wf_ty = true")
+            else:
+                resid_answers[dec(ca) if ca in ("ERR", "PANIC", "SHAPE") else "text"] = \
+                    resid_answers.get(dec(ca) if ca in ("ERR", "PANIC", "SHAPE") else "text", 0) + 1
+        if wf:
             n_thm += 1
-            if not (ca == shown and cb == shown):
+            differs = not (ca == shown and cb == shown)
+            if differs:
                 n_thm_bad += 1
                 report("SPEC", i, "type %s: expected %r, CAST form %r, :: form %r" % (
                     canon_py(t), dec(shown), dec(ca), dec(cb)))
-        elif wf:
-            differs = not (ca == shown and cb == shown)
-            key = "+".join(sorted(devs)) or "?"
-            e = fclass.setdefault(key, [0, 0])
-            e[0] += 1
-            e[1] += differs
-            if differs and len(key) == 2:
-                fexamples.setdefault(key, []).append((len(text), "T=%s expected=%s actual(CAST)=%s actual(::)=%s" % (
-                    canon_py(t), dec(shown), dec(ca), dec(cb))))
+            if devs:
+                key = "+".join(sorted(devs))
+                e = fclass.setdefault(key, [0, 0])
+                e[0] += 1
+                e[1] += differs
 
     print(cov)
-    print("tree cases %d: wf %d, wf&&code_ok %d (theorem instances checked against the code: %d)" % (
-        len(cases) - n_mut, n_wf, n_ok, n_thm))
+    print("tree cases %d: wf %d (theorem instances checked against the code: %d), residual combination R (not wf) %d %s" % (
+        len(cases) - n_mut, n_wf, n_thm, n_resid, resid_answers))
     print("mutants (text only) %d: model = code on %s answers, model OOF on %d answers" % (n_mut, mut_same, n_mut_oof))
     print("model OOF answers on trees %d; all OOF reasons %s" % (n_oof, oof_reasons))
-    print("known deviation classes (cases, of which code != spec): %s" % dict(sorted(fclass.items())))
-    for k in sorted(fexamples):
-        for _, e in sorted(fexamples[k])[:2]:
-            print("  %s %s" % (k, e))
+    print("former deviation classes on wf trees (cases, of which code != spec): %s" % dict(sorted(fclass.items())))
     bad = n_tok_bad + n_model_bad + n_pos_bad + n_thm_bad + n_cls_bad
-    print("disagreements: tokens %d, model-vs-code %d, CAST-vs-:: %d, spec-vs-code on code_ok trees %d, classifier %d" % (
+    print("disagreements: tokens %d, model-vs-code %d, CAST-vs-:: %d, spec-vs-code on wf trees %d, classifier %d" % (
         n_tok_bad, n_model_bad, n_pos_bad, n_thm_bad, n_cls_bad))
     shown_kinds = {}
     for kind, _, m in sorted(reports, key=lambda x: (x[0], x[1])):
